@@ -7,16 +7,19 @@ import obs
 ID = "C13"
 ENV_RERUN = 40          # cases repeated from a cargo build-script environment (lib/runner.py with_build_env)
 VALIDATE_MIX = True
-REQUIRES = ["ObsCheck", "Agree", "C13Spec", "C13Proof", "Truth"]
+REQUIRES = ["ObsCheck", "Agree", "C13Spec", "C13Proof", "C13Mult", "Truth"]
 THEOREM_REQUIRES = ["C13"]
-THEOREMS = ["C13_holds_bool", "C13_holds"]
+THEOREMS = ["C13_holds_bool", "C13_holds", "C13_wgsl_sizes_multiple_of_4", "C13_length_multiple_of_4"]
 PROOF_FILES = ["Proofs/GenInv.v", "Proofs/Traversal.v", "Proofs/StageMap.v", "Proofs/C03Link.v",
-               "Proofs/C13Proof.v", "Proofs/C13Obs.v", "Properties/C13.v"]
+               "Proofs/C13Proof.v", "Proofs/C13Obs.v", "Proofs/LayoutFacts.v", "Proofs/C13Mult.v", "Properties/C13.v"]
 RULE = ("call-graph programs (as in C03) with and without a push constant variable of type scalar / vec3 / vec4 / "
         "mat2x2 / mat3x3 / mat4x4 / padded structs / arrays, used from entry points directly, through helpers, or not at "
         "all; ground truth: WGSL size from a hand table, stages from the Python closure, 'all entry stages' fallback "
         "when unused; non-trivial = has a push constant; distinct = distinct IR dumps")
 ASSUMPTIONS = ["premise pc_size_agrees (naga TypeInner::size = Layouter size) evaluated on every case",
+               "premise pc_layout_agrees (the push constant's type is in the domain of Layout.wgsl_lty and naga's Layouter "
+               "size = the size the WGSL rules of Spec/Layout.v give) evaluated on every case; with it "
+               "C13_length_multiple_of_4 gives 'a multiple of 4', which clause (b) also evaluates on the real output",
                "that create_pipeline_layout passes the range to the device unchanged is fixed template text, checked "
                "token-for-token by the extractor and executed in C01's compiled batch"]
 
@@ -99,9 +102,9 @@ def verdict_expr(c, r, ir, real):
 
 def _verdict(c, r, ir, real):
     t = "None" if c["truth"] is None else "(Some (%d%%N, %s))" % (c["truth"][0], stages_term(c["truth"][1]))
-    return ('[wf %s && pc_size_agrees %s; agree_res agree_C13 (gen %s ""%%string None %s) %s; '
-            'on_ok %s (fun o => C13_ok %s o && truth_pc_out_ok o %s) && OBS]'
-            % (ir, ir, ir, coq_options(c["opts"]), real, real, ir, t))
+    return ('[wf %s && pc_size_agrees %s && pc_layout_agrees %s; agree_res agree_C13 (gen %s ""%%string None %s) %s; '
+            'on_ok %s (fun o => C13_ok %s o && pc_ranges_mult4 o && truth_pc_out_ok o %s) && OBS]'
+            % (ir, ir, ir, ir, coq_options(c["opts"]), real, real, ir, t))
 
 
 def verdict_expr_noout(c, r, ir):
